@@ -51,6 +51,15 @@ def quiet():
 # parallel batches
 # --------------------------------------------------------------------------
 def _init_worker(hang_s):
+    # one core per worker: baton-passing rank threads never run concurrently and
+    # XLA/BLAS thread pools of 16 parallel workers would only fight each other
+    try:
+        ident = multiprocessing.current_process()._identity
+        cpus = sorted(os.sched_getaffinity(0))
+        if ident and len(cpus) > 1 and not os.environ.get("VERIF_NO_PIN"):
+            os.sched_setaffinity(0, {cpus[(ident[0] - 1) % len(cpus)]})
+    except Exception:
+        pass
     faulthandler.enable()
     faulthandler.dump_traceback_later(hang_s, exit=True)
 
